@@ -431,7 +431,8 @@ def check_factory_optional_deref(ctx):
             by_field.setdefault(ident, []).append((ref, d))
     t = src.tree(FACTORY)
     fac = get_class(t, 'ObjectFactory')
-    ms = {name: get_method(fac, name) for name in methods(fac)}
+    from ..inline import flat_methods
+    ms = flat_methods(fac)[0]
 
     def field_info(e, holders=None):
         """(possible classes of e, nullable) for an attribute read of a codec field, by field name (filtered by the holder classes when known)"""
@@ -517,8 +518,8 @@ def check_table_lookup_results(ctx):
     for rel, cn in ((CRYPTO, 'CryptographyEngine'), (ENGINE, 'KmipEngine')):
         t = ctx.src.tree(rel)
         c = get_class(t, cn)
-        for name in sorted(methods(c)):
-            fn = get_method(c, name)
+        from ..inline import flat_methods
+        for name, fn in sorted(flat_methods(c)[0].items()):
             g = None
             for a in walk_local(fn):
                 if not (isinstance(a, ast.Assign) and len(a.targets) == 1 and isinstance(a.targets[0], ast.Name)):
@@ -579,7 +580,8 @@ def check_library_value_errors(ctx):
     ctx.rule('C13.R13', 'in CryptographyEngine the library calls that reject request-controlled values - ciphers.Cipher(...) (the IV / nonce size is checked there), finalize() / finalize_with_tag() of a decryptor or an unpadder (ciphertext length, authentication tag, padding bytes), and the constructors hkdf.HKDF / pbkdf2.PBKDF2HMAC (requested length, iteration count) - run inside a try whose handler answers with a KMIP error (as mac, wrap_key and verify_signature do), in the method itself or around every call of that method inside the class: otherwise undecryptable ciphertext, a wrong tag, an IV of the wrong size or an excessive derivation length - all well-formed requests - are answered with General Failure.  Encryption-side update/finalize are not demanded: the plaintext is padded to whole blocks first')
     t = ctx.src.tree(CRYPTO)
     c = get_class(t, 'CryptographyEngine')
-    ms = {name: get_method(c, name) for name in methods(c)}
+    from ..inline import flat_methods
+    ms = flat_methods(c)[0]
 
     def converting(h):
         return ('*' in handler_catches(h) or 'Exception' in handler_catches(h)) and any(
